@@ -7,6 +7,8 @@ import (
 	"fmt"
 	"sort"
 	"strings"
+
+	"github.com/tikv/client-go/v2/internal/unionstore"
 )
 
 // stepRead: one group of operations of the executor (see exec_core.go)
@@ -111,6 +113,23 @@ func (x *ex) stepRead(idx int, o Op) {
 	case "iter", "riter":
 		lo, hi := unhx(o.Lo), unhx(o.Hi)
 		rev := o.Op == "riter"
+		if _, isPipe := t.(*pipeTarget); isPipe {
+			// error path: PipelinedMemDB.Iter is unsupported, KVUnionStore.Iter must hand the error on (no iterator)
+			var it unionstore.Iterator
+			var ierr error
+			pan := protect(func() { it, ierr = t.Iter(lo, hi) })
+			res := "err"
+			if pan != "" {
+				res = "panic"
+			} else if ierr == nil || it != nil {
+				res = "no-error"
+			}
+			line(idx, "iter", []string{hd(o.Lo), hd(o.Hi)}, res)
+			if !oracle("pipelined-iter-unsupported", res == "err") {
+				setFail("pipelined-iter-unsupported", idx, res)
+			}
+			return
+		}
 		var l []KV
 		var e string
 		pan := protect(func() {
